@@ -256,6 +256,9 @@ func isFullChange(r protocol.Range) bool {
 func (s *Server) DidClose(ctx context.Context, params *protocol.DidCloseTextDocumentParams) error {
 	s.documents.Delete(params.TextDocument.URI)
 	s.nextAnalysisSeq(params.TextDocument.URI)
+	// the include tree of this editing session must not be paired with the
+	// text of the next one
+	s.resolved.Delete(params.TextDocument.URI)
 	tokenCache.delete(params.TextDocument.URI)
 	s.payeeTemplatesCache.Clear()
 	// The buffer is gone: the workspace goes back to what is on disk.
